@@ -132,6 +132,18 @@ theorem no_resend (h : List GS.LinkTrack.Op) (hwf : GS.LinkTrack.WF h) (r : GS.L
   subst hs2
   exact ⟨rfl, this.2.1, this.2.2 r rfl⟩
 
+/-- **Known finding `skip-prefix-mismatch-resend`** (C24 read strictly: "the responder never
+    transmits a block the requestor asked it to skip").  The requestor loads 3, 2, 0 from its own
+    store and asks to skip 3 blocks; a responder that lacks 2 traverses 3, 2 (missing), 1, 0: its
+    skip window is 3, 2, 1, and block 0 — which the requestor has loaded — is sent with index 4.
+    Both halves are evaluations of the two models (requestor; link tracker). -/
+theorem resend_counterexample :
+    (let lt : LT := [⟨3, [], 0, 2, 0⟩, ⟨2, [0, 1], 1, 1, 1⟩, ⟨0, [0, 1, 2], 2, 3, 2⟩, ⟨1, [3], 1, 1, 0⟩, ⟨0, [3, 2], 2, 2, 1⟩]
+     let evs := (exchange [(0, 0), (2, 2), (3, 3)] lt 0 []).2
+     sentNews evs = [3] ∧ GS.C01.blocksOf evs = [(3, []), (2, [0, 1]), (0, [0, 1, 2])]) ∧
+    (GS.LinkTrack.step (GS.LinkTrack.run [.skip 7 3, .trav 7 3 true, .trav 7 2 false, .trav 7 1 true]).1
+        (.trav 7 0 true)).2 = .sent true 4 := by decide
+
 /-- non-vacuity of `silent` -/
 example : Covers [(9, 9), (2, 2)] [⟨9, [], 0, 2, 0⟩, ⟨2, [0], 1, 1, 1⟩] := by
   intro n hn; simp at hn; rcases hn with rfl | rfl <;> decide
